@@ -209,6 +209,8 @@ type Conn struct {
 	Hook func(c *Conn, p []byte) WritePlan
 	// Tap observes the bytes accepted by each Write on this end, in order.
 	Tap func(p []byte)
+	// OnWrite observes each Write call on this end when it is invoked (before flow control can block it).
+	OnWrite func(p []byte)
 	// Server is true for the accepting end.
 	Server bool
 }
@@ -317,6 +319,9 @@ func (c *Conn) Read(b []byte) (int, error) {
 }
 
 func (c *Conn) Write(b []byte) (int, error) {
+	if c.OnWrite != nil {
+		c.OnWrite(b)
+	}
 	c.wr.mu.Lock()
 	window := c.wr.cap
 	c.wr.mu.Unlock()
